@@ -85,6 +85,12 @@ func Run(seed int64, n int, outDir string) error {
 	if err := w.SetupPools(4); err != nil {
 		return err
 	}
+	// a pool whose price is many orders of magnitude below 1 (an 18-decimals base token quoted in a
+	// 6-decimals one: price about 1.5^-68 = 1e-12, sqrt price 1e-6): products and quotients of sqrt
+	// prices keep few significant digits there
+	if _, err := w.CreatePoolAt("urise", "uatom", "0.003", "1.5", "0", -68); err != nil {
+		return err
+	}
 	st := emit.NewStats("C05", seed, "swap-heavy histories over 4 pools (C5Step: pre-state, op, result, post-state), paired quotes on one state (C5Mono), there-and-back swaps (C5Round), and direct calls of the four ComputeSwapWithinBucket* functions on generated (price, target, liquidity, remaining, fee) incl. zero liquidity (C5Bucket); non-trivial = a swap that moved the price with a non-zero rounded-off remainder (distinct by pool and resulting price) or a bucket call with a distinct result")
 	cf := &emit.CasesFile{Import: "Amm.C05Check", Runner: "run", Type: "c05_case"}
 	// pure bucket steps: cheap on both sides, go in their own shards
